@@ -74,6 +74,10 @@ func runC09(c *Ctx) {
 				})
 				if kc := kcFor(s, cr); kc != nil && 384-kc.CryptoSize()-kc.SigningPublicKeySize() >= 0 {
 					c.Case(E_RIAllowed, [][]byte{i64(int64(s)), i64(int64(cr))}, func() Obs { return OK(bool1(!riDeniedImpl(s, cr))) })
+					if specRIDenySig[s] || specDenyCrypto[cr] {
+						c.Check("router_identity_types_permitted", riDeniedImpl(s, cr), "NewRouterIdentity", [][]byte{i64(int64(s)), i64(int64(cr))}, "",
+							fmt.Sprintf("NewRouterIdentity returned a RouterIdentity declaring the prohibited pair (signing %d, crypto %d)", s, cr))
+					}
 				}
 				// direct readers
 				pd := runParser(c, byName["ReadDestination"], w, nil)
